@@ -2,7 +2,7 @@
    enclosures whose [true] is proved (Theory/CertT.v) to imply a statement about every point
    of a continuum. *)
 From Coq Require Import ZArith QArith Qabs List Bool.
-From PyqspV Require Import Base.Ops Base.IntervalZ Base.TrigZ Model.LPolyM Model.LAlgM Model.QInst Model.ConvM Model.ResponseM Model.SymQspM.
+From PyqspV Require Import Base.Ops Base.IntervalZ Base.TrigZ Model.LPolyM Model.LAlgM Model.QInst Model.ConvM Model.ResponseM Model.SymQspM Model.PolyGenM.
 Import ListNotations.
 
 Fixpoint qlist_eqb_exact (a b : list Q) : bool :=
@@ -273,3 +273,52 @@ Definition check_im_target (odd : bool) (red c : list Q) (tol : Q) : bool :=
   match jac_f_diff odd red c with Some d => scaled_le_q (sum_ub (lp_coefs d)) tol | None => false end.
 Definition im_target_norm (odd : bool) (red c : list Q) : option Z :=
   match jac_f_diff odd red c with Some d => Some (sum_ub (lp_coefs d)) | None => None end.
+
+Definition scaled_lt_q' (q : Q) (v : Z) : bool := (Qnum q * scaleZ <? v * Zpos (Qden q))%Z.
+
+(* ---- C15 (and the sup-norm clauses of C09, C16): certified bound of a Chebyshev series on all
+   of [-1,1].  The series  sum_k c_k T_k(cos t) = sum_k c_k cos(k t)  is evaluated at the centres
+   of cells [t_c - r, t_c + r] covering [0, 4] (>= [0, pi]); on a cell it moves by at most
+   r * sum_k k |c_k|. *)
+Fixpoint cheb_sum_I (c : list I) (x tk tk1 : I) : I :=
+  match c with
+  | [] => izero
+  | ck :: c' => iadd (imul ck tk) (cheb_sum_I c' x tk1 (isub (imul (iadd x x) tk1) tk))
+  end.
+Definition cheb_at (c : list Q) (theta : Q) : I :=
+  let x := fst (cos_sin_encl theta) in cheb_sum_I (map iofQ c) x ione x.
+Fixpoint lip_from (k : Z) (c : list Q) : Q :=
+  match c with [] => 0 | ck :: c' => qadd (Qmult (inject_Z k) (Qabs ck)) (lip_from (k + 1) c') end.
+Definition lipq (c : list Q) : Q := lip_from 0 c.
+Definition cell_ok (c : list Q) (L M : Q) (cell : Q * Q) : bool :=
+  let th := fst cell in let r := snd cell in
+  Qleb 0 r && scaled_le_q (iabs_ub (cheb_at c th)) (qadd M (Qopp (Qmult r L))).
+Fixpoint cover_ok (cells : list (Q * Q)) (reach : Q) : bool :=
+  match cells with
+  | [] => Qltb 4 reach
+  | cell :: cs =>
+      let th := fst cell in let r := snd cell in
+      Qleb (qadd th (Qopp r)) reach &&
+      cover_ok cs (if Qleb reach (qadd th r) then qadd th r else reach)
+  end.
+Definition check_sup (c : list Q) (cells : list (Q * Q)) (M : Q) : bool :=
+  cover_ok cells 0 && forallb (cell_ok c (lipq c) M) cells.
+
+(* monomial input: convert with the (instance-certified) exact poly2cheb, then bound *)
+Definition check_sup_mono (p : list Q) (cells : list (Q * Q)) (M : Q) : bool :=
+  check_p2c false p && check_sup (p2c_q false p) cells M.
+(* certified violation: at the angle theta the series exceeds M in modulus *)
+Definition check_exceeds (c : list Q) (theta M : Q) : bool := scaled_lt_q' M (iabs_lb (cheb_at c theta)).
+
+(* ---- C14 / C17: generators *)
+Definition opp_zero_q (odd : bool) (l : list Q) : bool := opp_zero qisz0 odd l.
+Fixpoint all_close (a b : list Q) (tol : Q) : bool :=
+  match a, b with
+  | [], [] => true
+  | x :: a, y :: b => Qleb (Qabs (qadd x (Qopp y))) tol && all_close a b tol
+  | _, _ => false
+  end.
+(* bounded = s * unbounded, coefficient-wise within tol *)
+Definition scaled_close (b u : list Q) (s tol : Q) : bool := all_close b (scale OpsQ s u) tol.
+(* Chebyshev-basis output and monomial-basis output denote the same polynomial *)
+Definition same_poly_bases (cheb mono : list Q) (tol : Q) : bool := all_close (c2p_q false cheb) mono tol.
